@@ -1,4 +1,5 @@
 import RodbusModel.Lemmas.Rtu
+import RodbusModel.Gen.Tables
 /-
   C06  RTU frames are emitted with a correct CRC and accepted only if the CRC verifies.
 
@@ -406,5 +407,29 @@ theorem byte_count_flip_accepted :
         [xorBytes (format 0x2A [0x03, 0x04, 0x50, 0xF8, 0x00, 0x00]) [0, 0, 4, 0, 0, 0, 0, 0, 0]]
       = [.frame ⟨none, 0x2A, [0x03, 0x00]⟩, .err (.unknownFunctionCode 0x00)] :=
   ⟨by decide, ⟨18, by decide⟩, by decide +kernel⟩
+
+
+/-! ## The length table regenerated from serial/frame.rs -/
+
+/-- Every arm of `RtuParser::length_mode` (regenerated from the Rust source on every run) is the
+    model's answer for that direction and function code; all sixteen (direction, function) pairs
+    have an arm; and a byte that is no function code has no length rule (`unknown`) — in responses
+    unless its exception bit is set. -/
+theorem length_mode_table_correct :
+    (∀ row ∈ Gen.lengthMode,
+      lengthMode (if row.1 then .response else .request) row.2.1.toByte
+        = (if row.2.2.1 then .offset row.2.2.2 else .fixed row.2.2.2)) ∧
+    (∀ resp : Bool, ∀ fc : Fc, ∃ row ∈ Gen.lengthMode, row.1 = resp ∧ row.2.1 = fc) ∧
+    (∀ b : Fin 256, Fc.ofByte b.val = none →
+      lengthMode .request b.val = .unknown ∧
+      (b.val &&& 0x80 = 0 → lengthMode .response b.val = .unknown)) := by
+  refine ⟨by decide, ?_, by decide +kernel⟩
+  intro resp fc; cases resp <;> cases fc <;> decide
+
+/-- the frame constants of serial/frame.rs and tcp/frame.rs are the ones the model uses -/
+theorem frame_constants_correct :
+    Gen.rtuHeaderLength = 1 ∧ Gen.rtuFunctionCodeLength = 1 ∧ Gen.rtuCrcLength = 2
+      ∧ Gen.rtuMaxFrameLength = 256 ∧ Gen.maxAduLength = 253
+      ∧ Gen.readBufferCapacity = 260 := by decide
 
 end Rodbus.C06
